@@ -290,7 +290,6 @@ theorem step_malformed (ep : Endpoint) (l : Line) (h : ∀ r, l ≠ .request r) 
     (step ep l).1 = ep ∧ (step ep l).2.fx = [] ∧ (step ep l).2.reply.carriesData = false := by
   cases l with
   | request r => exact absurd rfl (h r)
-  | notUtf8 => exact ⟨rfl, rfl, rfl⟩
   | notJson => exact ⟨rfl, rfl, rfl⟩
   | notRequest => exact ⟨rfl, rfl, rfl⟩
 
